@@ -252,6 +252,20 @@ pub fn exact(b: &[u8]) -> Box<[u8]> {
     b.to_vec().into_boxed_slice()
 }
 
+/// Run an owning parse on a private heap copy of `b`, then overwrite and free the copy before the
+/// result is looked at: an owned result (`Value`, `Vec<Value>`, ...) must not depend on the input
+/// buffer once the call has returned (natively the scribble shows, under ASan the free does).
+pub fn parse_then_discard<T>(b: &[u8], f: impl FnOnce(&[u8]) -> T) -> T {
+    let mut copy = exact(b);
+    let out = f(&copy);
+    for (i, c) in copy.iter_mut().enumerate() {
+        *c = if i % 2 == 0 { b'7' } else { b'"' };
+    }
+    std::hint::black_box(&copy);
+    drop(copy);
+    out
+}
+
 pub fn err_brief(e: &sonic_rs::Error) -> String {
     let s = e.to_string();
     crate::core::truncate(&s, 200)
